@@ -11,6 +11,12 @@ _BLOOM_NOTE = ('Trusted: TLC; fakeredis + luamini as the Redis server that execu
                'exercised. Differences from the exact prediction that do not contradict the property (unpredicted false positive, Count '
                'value) are divergences (exit 2), not violations.')
 
+_R2_FAULTS = (' Round 2: every script call takes a reply class (ok / refused with an error reply / connection lost before / lost after '
+              'execution); obligations arise only from calls that returned nil; action property AddNilMeansPresent; bloomdrv injects the class '
+              'with a one-shot fakeredis intercept on EVALSHA/EVAL. A difference from the exact prediction no longer ends a history: it continues '
+              'in loose mode where only the property obligations are judged (premises - which adds returned nil, which removals succeeded - are '
+              'watched).')
+
 CHECKS = {
  'C35': dict(
     level='model_checking',
@@ -27,7 +33,10 @@ CHECKS = {
          'reports the indexes the filter computes for candidate strings; TLC, with H fixed to that function, generates all histories of depth 3 '
          '(tiny sizes) and simulated ones of depth 10; each step carries the predicted answers (single and batch), obligations and Count; the '
          'real NewBloomFilter over a real client on fakeredis must agree: a must-present item reported absent, batch answers differing from '
-         'per-key answers, or a decreasing Count is a violation.',
+         'per-key answers, or a decreasing Count is a violation.' + _R2_FAULTS +
+         ' Batches with repeated keys are queried as one call after every step (QS); AddMulti/ExistsMulti calls with more than 2^15 indexes '
+         '(K = 3, 5, 6, 7, 10; thorough 2^16) are compared position by position with the per-key rule evaluated by TLC on the real index '
+         'function (Big = TRUE); negative configs: error reply swallowed, repeated keys de-duplicated, batches cut regardless of key boundaries.',
     design_ref='DESIGN.md 4.6 Bloom.tla, 5 C35-C37, 7 #9; design/bloomom.md',
     note=_BLOOM_NOTE),
  'C36': dict(
@@ -41,7 +50,8 @@ CHECKS = {
          'added items are removed" is a history variable (legit): a successful removal of a not-added item (possible through collisions) '
          'suspends the obligations until Delete. Replay compares, after every step, Exists / ExistsMulti / ItemMinCount / ItemMinCountMulti / '
          'Count and the raw hash counters (HGETALL on the fake server) with the prediction; histories contain batches with repeated keys, items '
-         'with repeated indexes, colliding items, removals predicted to fail.',
+         'with repeated indexes, colliding items, removals predicted to fail.' + _R2_FAULTS +
+         ' Negative configs added: rollback of all K counters, add counting a key once per slot, error reply swallowed.',
     design_ref='DESIGN.md 4.6 Bloom.tla, 5 C35-C37; design/bloomom.md',
     note=_BLOOM_NOTE + ' Counting histories are generated for sizes up to 400 (quick) / 1000 (thorough) counters.'),
  'C37': dict(
@@ -55,7 +65,10 @@ CHECKS = {
          'ticks, under both lock-expiry conventions (now >= set+half as fakeredis, now > set+half as Redis); negative configs: rotation '
          'emptying both filters, rotation clearing the current filter. Replay: fakeredis.VirtualClock stepped by the scenario (tick = half '
          'window / 2), all histories of depth 5 over Tick/Add/Exists/AddMulti/ExistsMulti/Reset/Delete for a tiny real size plus simulated '
-         'ones of depth 14; Exists answers and Count compared with the prediction.',
+         'ones of depth 14; Exists answers and Count compared with the prediction.' + _R2_FAULTS +
+         ' Action SNewHandle (the initialize script on an existing name: creates keys only when none of the five exists); (window, Half) pairs '
+         '(2000 ms, 2), (1500 ms, 3), (2500 ms, 5), (3000 ms, 3), (61 s, 2) so that a wrong rotation period falls between ticks; negative '
+         'configs added: initialise when any key is missing, exists reading the next generation, error reply swallowed.',
     design_ref='DESIGN.md 4.6 Bloom.tla, 5 C35-C37; design/bloomom.md',
     note=_BLOOM_NOTE + ' Sliding Reset returns the Redis-nil error on success (its script has no return statement; the repository test '
          'tolerates it): taken as success, not part of C37.'),
@@ -82,3 +95,35 @@ CHECKS = {
          'fields only with valid UTF-8 and exactly representable floats. FT.* index commands are not exercised. Known finding: hash Save '
          'of nil *string/*int64/*bool over a stored value keeps the old value.'),
 }
+
+# round 2 (om2): replaces the C40 entry above
+CHECKS.update({
+ 'C40': dict(
+    level='model_checking',
+    technique='TLA+ spec of the versioned save scripts (single Save, SaveMulti batches over several keys, expiry on a server clock) checked '
+              'by TLC over all interleavings of 2-3 savers + TLC-generated behaviours replayed on the real om repositories over fakeredis '
+              'with a virtual clock + TLC-enumerated (repository, place, field type, boundary class) cells round-tripped',
+    text='Om.tla: stored documents docs[k] = [ver, f1, f2, f3, fexp, ttl], a clock, savers holding entities obtained by NewEntity or Fetch. '
+         'Apply = one execution of the Lua script of om/hash.go resp. om/json.go (version test, HSET of the non-nil fields / replacement of '
+         'the JSON document, PEXPIREAT only for a non-zero exat, a time <= now removes the key) followed by the Go side; Save = Apply, '
+         'SaveMulti = fold of Apply over the batch in order; Tick expires keys. TLC checks AtMostOneWinner (per key and incarnation), '
+         'VersionPlusOne, SavedIsFetchable (exists afterwards iff the saved expiry is zero or in the future), AllFieldsStored (incl. exat '
+         'and TTL), FailedSaveChangesNothing, FetchEqualsSaved[ButNil], ExpiryHonoured for hash and JSON: 3 savers x (1 obtain, 2 saves), '
+         '2 x (2, 2), 2 keys x 3 savers with batches of 1-3 in every order, 1 key x 2 savers with exat zero/past/now/future and clock '
+         '1..3 (thorough: deeper). Negative configs: ~= instead of ==, version not incremented, a field not written, one field map shared '
+         'by a batch, zero time sent as expiry, passed expiry ignored; the hash repository as it is violates the unconditional '
+         'FetchEqualsSaved (known finding). omdrv replays per repository 12960 single-save interleavings, 3360 + 936 batch behaviours '
+         '(heterogeneous pointer fields, keys, staleness, expiry), 3564 expiry/clock behaviours and seeded simulations of everything mixed: '
+         'outcome of every entity of every Save/SaveMulti, entity versions, then every key read back with Fetch, FetchCache and PEXPIRETIME '
+         'and compared with the saved entity and the predicted document. OmTypes.tla enumerates the 303 supported (repository, place, type, '
+         'boundary class) cells - time with ns and zone, float64 -0 / 17 digits / exponents, int64 and uint64 extremes, non-UTF-8 bytes, '
+         'separators, nested structs and slices - each executed with 1-6 concrete values.',
+    design_ref='DESIGN.md 4.6 Om.tla, 5 C40; design/bloomom.md (sections 3 and "Round 2")',
+    note='Trusted: TLC; fakeredis + luamini executing the real script texts, RedisJSON emulated on encoding/json (root path, one numeric '
+         'member; JSON.SET of the root and HSET keep the TTL; PEXPIREAT <= now deletes). The clock is virtual. Concurrency = order of atomic '
+         'script executions; a batch is one pipeline on one connection. Entities compared field by field with nil and empty slices '
+         'identified, times as instant + zone offset, floats bit by bit; JSON-encoded strings valid UTF-8, JSON-encoded floats finite. '
+         'The concrete values of a boundary class are chosen by the driver (the class table and the prediction are in OmTypes.tla). FT.* '
+         'index commands, Search and Remove are not exercised. Known finding: hash Save of nil *string/*int64/*bool over a stored value of '
+         'the same key keeps the old value.'),
+})
